@@ -258,7 +258,7 @@ func genNesting(r *rand.Rand, i int) J {
 				if b == "comment" || b == "raw" {
 					// opaque body: anything but the own end tag
 					for m := r.Intn(4); m > 0; m-- {
-						out = append(out, pick(r, []string{"text", "obj", "if", "endif", "else", "tag", "for", "endcase", "when"}))
+						out = append(out, pick(r, []string{"text", "obj", "if", "endif", "else", "tag", "for", "endcase", "when", "badobj", "badobj"}))
 					}
 				} else {
 					out = append(out, build(depth-1)...)
